@@ -282,7 +282,25 @@ def run(ctx):
     os.makedirs(BUILD_DIR, exist_ok=True)
     cases = cases_for(rng, ctx.tier)
     hc = [dict(sb=c["sb"], ops=c["ops"], dir=BUILD_DIR, keep=True, nodata=True) for c in cases]
-    results = vlib.run_harness_parallel(H, "hist", hc)
+    try:
+        results = vlib.run_harness_parallel(H, "hist", hc)
+    except RuntimeError as e:
+        # the harness process died (a fatal Go runtime error cannot be recovered): find the history that kills it
+        results, crash = [], None
+        for c1, h1 in zip(cases, hc):
+            try:
+                results.append(vlib.run_harness(H, "hist", [h1], timeout=120)[0])
+            except Exception as e1:
+                crash = crash or (c1, str(e1))
+                results.append({"crashed": True})
+        if crash is None:
+            raise
+        c1, msg = crash
+        first = next((l for l in msg.splitlines() if "fatal error" in l or "panic" in l), msg[:200])
+        shutil.rmtree(BUILD_DIR, ignore_errors=True)
+        return dict(violations=[dict(what="the library kills the process while replaying a history (%s)" % first.strip()[:200],
+                                     failing_input=dict(sb=c1["sb"], ops=c1["ops"]), stderr=msg[-1500:])], known=[],
+                    coverage=dict(evaluations=len(cases), distinct_nontrivial=0, rule="aborted: process crash", samples=[]))
     listed = known_tags()
     viol, tagcount, tagwit = [], collections.Counter(), {}
     kinds, sbs, gens = collections.Counter(), collections.Counter(), collections.Counter()
